@@ -90,6 +90,16 @@ impl LoopCampaign {
       }
       kbd.push((t, e));
     }
+    // one run in three is renamed over the whole key-code space (see common::random_renaming)
+    let (layout, name, kbd) = if self.source == SourceB::Random && rng.chance(1, 3) {
+      let mut used = layout_keys(&layout);
+      for (_, e) in &kbd { let k = ev_key(e); if !used.contains(&k) { used.push(k); } }
+      let map = random_renaming(&mut rng, &used, &[]);
+      match through_loader(&rename_layout(&map, &layout)) {
+        Some(l2) => (l2, format!("{}-renamed", name), kbd.iter().map(|(t, e)| (*t, rename_event(&map, e))).collect::<Vec<_>>()),
+        None => (layout, name, kbd),
+      }
+    } else { (layout, name, kbd) };
     let swarm = |rng: &mut Rng, choices: &[u32]| if rng.chance(1, 2) { 0 } else { rng.pick(choices) };
     let cfg = FaultCfg {
       p_eintr: swarm(&mut rng, &[3, 10, 30]),
